@@ -184,6 +184,15 @@ def run(report, db, tier):
     # stream up for the very next frame
     from .c10 import transport_lookup
     transport_lookup(report, db, cg, M, rule_id='R18.9')
+    # "one continuous stream": the one encryptor sees the plaintext in the
+    # order of the frames only if frames are written one at a time
+    from ..common import borrow
+    from . import c12
+    borrow(report, 'R18.8', "what the encryptor sees is the packet stream: "
+           "every path to the frame writer and to the queue pop holds the "
+           "write lock, also the flush of disconnect() (C12's lock rules)",
+           lambda rid, c: c.startswith(('lockset:', 'disconnect:flush-')),
+           lambda sub: (c12.r2(sub, db, cg, M), c12.r4(sub, db, cg, M)))
     R5 = report.rule('R18.5', 'wrappers are single pass-through updates '
                      '(continuous stream, any segmentation)')
     shared.wrapper_passthrough_ps(report, R5, db)
